@@ -162,7 +162,7 @@ func propC15(w *World, r *Report, tier string) {
 	sa := runEntries(w, r, totalityEntries(w, r, [][3]string{{"nasType", "QoSRules.UnmarshalBinary", "recv"}, {"nasType", "QoSFlowDescs.UnmarshalBinary", "recv"}}))
 	sa.report(r, "C15")
 	r.Expect("safe.entries", 2)
-	r.Expect("safe.loop", 5)
+	r.ExpectCensus("safe.loop", sa.loopCensus(), 5)
 	r.Expect("safe.stdlib-pre", 8)
 	// list parsers: no item delivered with a field unread, no item state carried between iterations
 	checkParserSeqRules(w, r, "nasType", func(fn *ssa.Function) bool {
